@@ -19,6 +19,9 @@ type msgSpec struct {
 	UTF8  bool
 	Rcpts []string          // as handed to queueDelivery.AddRcpt, in order; duplicates possible
 	Orig  map[string]string // MsgMetadata.OriginalRcpts (effective -> original), may be nil
+	// BodySize > 0: the body is about that many bytes of CRLF-terminated lines (real-client
+	// cases: large enough that the client is still streaming when the server aborts mid-DATA).
+	BodySize int
 }
 
 // distinct returns the distinct recipient strings in first-occurrence order.
